@@ -215,7 +215,8 @@ def rule_axis_py(ctx, py):
     # RDGridSpace.get_neighbors: each conditional append
     f = py.fn("rdgridspace.RDGridSpace.get_neighbors")
     disp = set()
-    for st in [s for s in f.body if isinstance(s, ast.If)]:
+    from .. import pysym
+    for st in [pysym.inline_stmt(s, f, stop={"x", "y", "z", "neighbors"}) for s in f.body if isinstance(s, ast.If)]:
         tups = [t for t in ast.walk(st) if isinstance(t, ast.Tuple) and len(t.elts) == 3]
         ctx.need(len(tups) == 1, R, "get_neighbors: conditional append without one coordinate triple")
         t = tups[0]
